@@ -250,10 +250,23 @@ func ruleFMT(c *Ctx, r *Report) {
 				if name == "" {
 					continue
 				}
+				okOps := ok
 				n++
 				pos := c.instrPos(in)
 				fs, isConst := constStringVal(c.resolve(format, nil))
 				if !isConst {
+					// a format chosen among constants (phi of constant strings): every alternative is checked
+					if alts, ok := c.constStringSet(format, 0); ok && len(alts) > 0 {
+						for _, alt := range alts {
+							key := fmt.Sprintf("%s|%q", fnName(fn), alt)
+							if !okOps {
+								r.bad(rule, key+"|operands", pos, "operands are not a literal argument list")
+								continue
+							}
+							c.checkFormat(r, rule, fn, key, pos, alt, operands, rops, name != "fmt.Errorf")
+						}
+						continue
+					}
 					// a forwarding wrapper (errorf(format, args...)) is checked at its call sites
 					if p, isParam := c.resolve(format, nil).(*ssa.Parameter); isParam && fn.Signature.Variadic() {
 						_ = p
@@ -273,6 +286,36 @@ func ruleFMT(c *Ctx, r *Report) {
 		}
 	}
 	r.floor(rule, "format call sites", n, 60)
+}
+
+// constStringSet: the string constants v can be (a constant, or a phi of such), nil,false otherwise.
+func (c *Ctx) constStringSet(v ssa.Value, depth int) ([]string, bool) {
+	if depth > 4 {
+		return nil, false
+	}
+	v = c.resolve(v, nil)
+	if s, ok := constStringVal(v); ok {
+		return []string{s}, true
+	}
+	ph, ok := v.(*ssa.Phi)
+	if !ok {
+		return nil, false
+	}
+	set := map[string]bool{}
+	for _, e := range ph.Edges {
+		if e == ssa.Value(ph) {
+			continue
+		}
+		alts, ok := c.constStringSet(e, depth+1)
+		if !ok {
+			return nil, false
+		}
+		for _, a := range alts {
+			set[a] = true
+		}
+	}
+	out := setKeys(set)
+	return out, true
 }
 
 func (c *Ctx) fmtWrapperSites(r *Report, wrapper *ssa.Function, reach map[*ssa.Function]bool) {
